@@ -18,6 +18,8 @@ import (
 	"os"
 	"sort"
 	"strings"
+	"unicode"
+	"unicode/utf8"
 
 	"golang.org/x/tools/go/ssa"
 )
@@ -794,6 +796,15 @@ func (ip *Interp) runClosure(fn *ssa.Function, args []any, binds []any, depth in
 							env[x] = c
 							continue
 						}
+						// string(b) of a byte or a rune
+						if bt, isB := x.Type().Underlying().(*types.Basic); isB && c.Kind() == constant.Int && bt.Info()&types.IsString != 0 {
+							if st, isSB := x.X.Type().Underlying().(*types.Basic); isSB && st.Info()&types.IsInteger != 0 {
+								if iv, exact := constant.Int64Val(c); exact {
+									env[x] = constant.MakeString(string(rune(iv)))
+									continue
+								}
+							}
+						}
 					}
 				}
 				delete(env, x)
@@ -1548,6 +1559,38 @@ func libModel(name string, args []any) (any, bool) {
 		if ok1 && ok2 {
 			return constant.MakeInt64(int64(strings.Index(a, b))), true
 		}
+	case "unicode.ToUpper", "unicode.ToLower", "unicode.ToTitle":
+		if len(args) == 1 {
+			if c, ok := args[0].(constant.Value); ok && c.Kind() == constant.Int {
+				if iv, exact := constant.Int64Val(c); exact {
+					switch name {
+					case "unicode.ToUpper":
+						return constant.MakeInt64(int64(unicode.ToUpper(rune(iv)))), true
+					case "unicode.ToLower":
+						return constant.MakeInt64(int64(unicode.ToLower(rune(iv)))), true
+					}
+					return constant.MakeInt64(int64(unicode.ToTitle(rune(iv)))), true
+				}
+			}
+		}
+		return nil, false
+	case "unicode/utf8.DecodeRuneInString", "unicode/utf8.DecodeLastRuneInString":
+		if a, ok := str(0); ok {
+			var r rune
+			var n int
+			if name == "unicode/utf8.DecodeRuneInString" {
+				r, n = utf8.DecodeRuneInString(a)
+			} else {
+				r, n = utf8.DecodeLastRuneInString(a)
+			}
+			return iTuple{constant.MakeInt64(int64(r)), constant.MakeInt64(int64(n))}, true
+		}
+		return nil, false
+	case "unicode/utf8.RuneCountInString":
+		if a, ok := str(0); ok {
+			return constant.MakeInt64(int64(utf8.RuneCountInString(a))), true
+		}
+		return nil, false
 	case "strings.TrimSpace", "strings.ToLower", "strings.ToUpper":
 		a, ok := str(0)
 		if !ok {
